@@ -10,7 +10,11 @@ for log in sys.argv[1:]:
         if not m:
             continue
         sd, prop, ex, dw, dwo, rc, viol = m.groups()
-        sid = os.path.basename(sd).replace("seed_", "")
+        base = os.path.basename(sd)
+        sid = base.replace("seed_", "")
+        if base.startswith("seed2_"):
+            pr, n = base[len("seed2_"):].rsplit("_", 1)
+            sid = "%s_r2_%s" % (pr, n)
         confirmed = ex == "pass" and dw == "fail" and dwo == "pass"
         detail = [x for x in lines[i + 1:i + 8] if x and not x.startswith("SEED")]
         rule = next((x.split(":", 1)[1].strip() for x in detail if x.strip().startswith("monitor:")), None)
